@@ -71,14 +71,43 @@ def unit_shift(rel, q, which, twin=False):
             for s3, _ in ex.ev(inc, s2):
                 nxt = U.local_of(info, s3, "i")
                 U.discharge_valid(r, tag + ".next_cell_visited_is_the_cell_just_read(read_before_overwritten)", list(s3.pc), tm.eq(nxt, ex.coerce(src, "I")))
-        # the loop starts at the downstream end
-        st0 = SX.State()
-        ex0 = SX.Exec(ctx); ex0.local_ids = ex.local_ids; ex0.addr_taken = set(); ex0.loop_ids = ex.loop_ids
+        # the cells visited are exactly the column cells 1..N, starting at the downstream end (so that every cell is read before it is overwritten)
         init, cond, inc, body = ex.loop_parts(node)
-        if init is not None:
-            for did in ex.local_ids:
+        N = tm.select(ex.heap_arr(SX.State(), ("f", "count_cells" if which == "transport" else "count_ad_cells", "I")), THIS)
+        conds = [s_.pc[0] for s_ in iters if s_.pc and "iter_i" in repr(s_.pc[0])]
+        if not conds or init is None:
+            r.add(tag + ".visits_exactly_the_column_cells", UNDECIDED, "symex", 0, "loop condition or initialisation not read")
+        else:
+            cnd = conds[0]
+            st0 = SX.State()
+            for did, (nm_, q_) in ex.assigned_locals(node)[0].items():
                 pass
-            sts = ex.exec(init, [SX.State()]) if False else None
+            exi = SX.Exec(ctx); exi.local_ids = ex.local_ids; exi.addr_taken = getattr(ex, "addr_taken", set()); exi.loop_ids = ex.loop_ids
+            v0 = None
+            try:
+                for s0 in exi.exec(init, [st0]):
+                    v0 = U.local_of(info, s0, "i")
+            except Exception:
+                v0 = None
+            down = B.z3_prove([], tm.eq(cnd, tm.lt(tm.num(0, "I"), i)))[0] == "proved" or B.z3_prove([tm.lt(tm.num(0, "I"), i)], cnd)[0] == "proved" and B.z3_prove([cnd], tm.lt(tm.num(0, "I"), i))[0] == "proved"
+            up = B.z3_prove([tm.le(i, N)], cnd)[0] == "proved" and B.z3_prove([cnd], tm.le(i, N))[0] == "proved"
+            if twin:
+                down = up = False
+            fc, lc = [U.local_of(info, iters[0], n_) if n_ in info["names"] else None for n_ in ("first_c", "last_c")] if which == "transport" else (None, None)
+            if which == "transport" and fc is not None and not twin:
+                # direction-generic sweep: from the last column cell towards the first, one cell per step against the flow
+                want_c = tm.not_(tm.eq(i, tm.sub(fc, step)))
+                okc = B.z3_prove([want_c], cnd)[0] == "proved" and B.z3_prove([cnd], want_c)[0] == "proved"
+                okv = v0 is not None and v0 is lc
+                r.add(tag + ".sweeps_from_the_last_cell_to_the_first_against_the_flow", DISCHARGED if okc and okv else FAILED, "z3", 0, "start %r cond %r" % (v0, cnd))
+            elif down:
+                okv = v0 is not None and B.z3_prove([], tm.eq(v0, N))[0] == "proved"
+                r.add(tag + ".visits_exactly_the_column_cells(N_down_to_1)", DISCHARGED if okv else FAILED, "z3", 0, "start %r" % (v0,))
+            elif up:
+                okv = v0 is not None and B.z3_prove([], tm.eq(v0, tm.num(1, "I")))[0] == "proved"
+                r.add(tag + ".visits_exactly_the_column_cells(1_up_to_N)", DISCHARGED if okv else FAILED, "z3", 0, "start %r" % (v0,))
+            else:
+                r.add(tag + ".visits_exactly_the_column_cells", FAILED, "z3", 0, "condition %r is neither i > 0 nor i <= N" % (cnd,))
     r.add("reach.loops", DISCHARGED, "ast-scan", 0, "shift loops: %s" % ords, kind="vacuity")
     r.assumptions += ["Rxn_copy(M, i, j) by its contract (unit C14.Rxn_copy): M[j] := copy of M[i], other keys unchanged",
                       "transport(): ishift is +1 or -1 (flow direction); the induction from the per-iteration contract and the order lemma to "
